@@ -5,6 +5,7 @@ import (
 	"errors"
 	"fmt"
 	"math"
+	"strings"
 	"time"
 
 	apifu "github.com/ccbrown/api-fu"
@@ -362,6 +363,18 @@ func buildSchema() (*graphql.Schema, error) {
 				Resolve: res(func(w *world, ctx graphql.FieldContext) interface{} { return ctx.Arguments["x"] })},
 		}
 	}
+	// identifiers far longer than anyone writes by hand (anything that sizes a buffer by "names are short")
+	long := &graphql.ObjectType{Name: longTypeName, Fields: map[string]*graphql.FieldDefinition{}}
+	for i := 1; i <= 12; i++ {
+		long.Fields[fmt.Sprintf("f%d", i)] = &graphql.FieldDefinition{Type: graphql.IntType, Resolve: res(func(w *world, _ graphql.FieldContext) interface{} { return 1 })}
+	}
+	long.Fields[longFieldName] = &graphql.FieldDefinition{Type: long, Resolve: res(func(w *world, _ graphql.FieldContext) interface{} { return &node{typ: "Long"} })}
+	commonLong := common
+	common = func() map[string]*graphql.FieldDefinition {
+		m := commonLong()
+		m["long"] = &graphql.FieldDefinition{Type: long, Resolve: res(func(w *world, _ graphql.FieldContext) interface{} { return &node{typ: "Long"} })}
+		return m
+	}
 	obj.Fields = common()
 	for _, t := range []*graphql.ObjectType{a, b} {
 		t.Fields = map[string]*graphql.FieldDefinition{
@@ -395,6 +408,28 @@ func buildSchema() (*graphql.Schema, error) {
 		},
 	})
 }
+
+const longTypeName = "AnObjectTypeWithANameOfFortyFourCharactersXY"
+const longFieldName = "aFieldWhoseNameIsEvenLongerThanTheNameOfTheTypeItBelongsToWhichIsAlreadyLong"
+
+// selection sets of every size from 1 to 12 on the long-named type, directly and through a fragment with a long name
+func longQueries() []string {
+	var out []string
+	for n := 1; n <= 12; n++ {
+		var sb strings.Builder
+		for i := 1; i <= n; i++ {
+			fmt.Fprintf(&sb, " f%d", i)
+		}
+		out = append(out, "{ long {"+sb.String()+" } }")
+	}
+	out = append(out,
+		"{ long { "+longFieldName+" { f1 f2 f3 f4 f5 f6 f7 "+longFieldName+" { f1 f2 f3 f4 f5 f6 f7 f8 } } } }",
+		"query "+longFieldName+"($"+longFieldName+": Int) { long { ..."+longFieldName+" "+longFieldName+": f1 } args(i: $"+longFieldName+") } fragment "+longFieldName+" on "+longTypeName+" { f1 f2 f3 f4 f5 f6 f7 f8 }",
+		"mutation { long { f1 f2 f3 f4 f5 f6 f7 f8 } obj { long { f1 f2 f3 f4 f5 f6 f7 } } }")
+	return out
+}
+
+func init() { seedQueries = append(seedQueries, longQueries()...) }
 
 var seedQueries = []string{
 	`{ int intNN float str bool id color custom dt li }`,
